@@ -356,6 +356,30 @@ def filtOpP (p : Params) (back : Bool) (D x : List GRat) : List Fft.PSum :=
            else filterP p (pKerF My) (pKerF Mx) (pKerB My) (pKerB Mx) sc Ds xs
   (List.range p.ny).flatMap fun iy => (List.range p.nx).map fun ix => r iy ix
 
+/-! ### the Fresnel propagator itself, exactly
+
+On the transfer-function branch the Fresnel transfer function at an internal pixel is the mean of `exp(2πi t)` over the
+rational phases `fresnelSubTurns` — a formal phase sum.  So the whole `FresnelPropagator.forward` is computed exactly. -/
+
+/-- mean of `exp(2πi t)` over a list of phases in turns -/
+def psumMeanTurns (l : List Rat) : Fft.PSum :=
+  Fft.PSum.ofRat (1 / (l.length : Rat)) * (l.map Fft.PSum.turns).foldr (· + ·) 0
+
+/-- the Fresnel transfer function that multiplies FFT bin `(qy,qx)` (`ifftshift` applied), as a formal phase sum -/
+def fresnelTFP (p : Params) (qy qx : Nat) : Fft.PSum :=
+  psumMeanTurns (fresnelSubTurns p (ifftshiftIdx (mx p) qx) (ifftshiftIdx (my p) qy))
+
+/-- What the driver op `prop` computes: `FresnelPropagator(...).forward(x)` / `.backward(x)` (transfer-function branch) on
+formal phase sums; `x` row-major `ny·nx` Gaussian rationals. -/
+def propOpP (p : Params) (back : Bool) (x : List GRat) : List Fft.PSum :=
+  let My := my p
+  let Mx := mx p
+  let sc := Fft.PSum.ofRat (1 / ((My * Mx : Nat) : Rat))
+  let xs := fun a b => psumOfGRat (gratArr p.nx x a b)
+  let r := if back then filterPBackward psumConj p (pKerF My) (pKerF Mx) (pKerB My) (pKerB Mx) sc (fresnelTFP p) xs
+           else filterP p (pKerF My) (pKerF Mx) (pKerB My) (pKerB Mx) sc (fresnelTFP p) xs
+  (List.range p.ny).flatMap fun iy => (List.range p.nx).map fun ix => r iy ix
+
 /-! ### the pipeline with a matrix-valued transfer function (`field_dot(tf, ·)` between the transforms) -/
 
 section pipelineM
